@@ -36,7 +36,7 @@ def run(pid, tier, seed):
     ctx.impl_opts = dict(getattr(mod, 'IMPL_OPTS', {}))
     # no quick check needs more than a few minutes of implementation time per shard on the unchanged tree: a tree on which the cases
     # crawl is reported (unanswered cases are abnormal answers) instead of being waited for
-    ctx.impl_opts.setdefault('deadline', 1500 if tier == 'quick' else None)
+    ctx.impl_opts.setdefault('deadline', 600 if tier == 'quick' else None)
     rng = vlib.Rng(seed)
     broken = []          # proof obligations / tie that no longer check
     violations = []      # concrete failing inputs: dict(case=..., why=..., impl=...)
@@ -89,6 +89,7 @@ def run(pid, tier, seed):
     # 4. correspondence + the property's direct oracle on the implementation
     cases = []
     n_cmp = n_diff = n_abnormal = 0
+    abnormal_cases = []
     cats = {}
     samples = []
     nontrivial = set()
@@ -118,6 +119,8 @@ def run(pid, tier, seed):
                 abnormal = io in ('timeout', 'not-run') or io.startswith('crash')
                 if abnormal:
                     n_abnormal += 1
+                    if len(abnormal_cases) < 5:
+                        abnormal_cases.append({'case': c['line'][:6000], 'impl': io, 'profile': prof})
                 if abnormal and not getattr(mod, 'HANDLES_ABNORMAL', False):
                     why = None
                 else:
@@ -136,7 +139,8 @@ def run(pid, tier, seed):
                 if len(samples) < 6 and (len(samples) < 2 or c['cat'] not in [s['cat'] for s in samples]):
                     samples.append({'cat': c['cat'], 'case': c['line'][:300], 'impl': io[:300]})
         if n_abnormal and not violations:
-            broken.append(Broken('the implementation run did not complete on %d cases (timeout or crash of the harness process)' % n_abnormal))
+            broken.append(Broken('the implementation run did not complete on %d cases (timeout or crash of the harness process)' % n_abnormal,
+                                 json.dumps(abnormal_cases, indent=1)))
         if n_diff:
             broken.append(Broken('correspondence: model and implementation differ on %d of %d cases' % (n_diff, n_cmp),
                                  json.dumps(first_diffs, indent=1)))
@@ -149,7 +153,8 @@ def run(pid, tier, seed):
 
     # 5. something broke and no concrete failing input yet: search for one
     searched = False
-    if broken and not violations and impl_ok and hasattr(mod, 'search'):
+    # (not when the implementation left cases unanswered: the search would run into the same hangs; the unanswered cases are named in the replay)
+    if broken and not violations and impl_ok and hasattr(mod, 'search') and not n_abnormal:
         searched = True
         budget = 60 if tier == 'quick' else 600
         try:
